@@ -1,1 +1,198 @@
+//! G-MARKUP — Markdown / HTML / Typst / Literate Haskell / git-commit documents built around
+//! G-TEXT sentences, including unterminated variants of every construct.
 
+use proptest::prelude::*;
+
+use super::{paragraph, sel_str, sentence, text};
+
+fn md_inline() -> BoxedStrategy<String> {
+    prop_oneof![
+        6 => sentence(),
+        1 => sentence().prop_map(|s| format!("*{s}*")),
+        1 => sentence().prop_map(|s| format!("**{s}**")),
+        1 => sentence().prop_map(|s| format!("_{s}")),
+        1 => sentence().prop_map(|s| format!("~~{s}~~")),
+        1 => (sentence(), sel_str(&["https://example.com", "", "<u r l>", "#frag", "a b"]), sel_str(&["", " \"a titel here\"", " 'titel", " (par)"]))
+            .prop_map(|(s, u, t)| format!("[{s}]({u}{t})")),
+        1 => sentence().prop_map(|s| format!("[{s}](")),
+        1 => sentence().prop_map(|s| format!("[{s}][ref]")),
+        1 => sentence().prop_map(|s| format!("![{s}](img.png \"an imge\")")),
+        1 => sentence().prop_map(|s| format!("`{s}`")),
+        1 => sentence().prop_map(|s| format!("`{s}")),
+        1 => sentence().prop_map(|s| format!("${s}$")),
+        1 => sentence().prop_map(|s| format!("$${s}$$")),
+        1 => sentence().prop_map(|s| format!("<b>{s}</b>")),
+        1 => sentence().prop_map(|s| format!("<span class=\"x\">{s}")),
+        1 => sentence().prop_map(|s| format!("[[{s}]]")),
+        1 => (sentence(), sentence()).prop_map(|(a, b)| format!("[[{a}|{b}]]")),
+        1 => sentence().prop_map(|s| format!("[[{s}")),
+        1 => sel_str(&["&amp;", "&nbsp;", "&#x1F600;", "&bogus;", "&", "\\*", "\\", "<!-- c -->", "<!--", "[^1]", "[x]", "- [ ] todo", "<https://a.b>", "<a@b.c>", ":smile:"]),
+        1 => sentence().prop_map(|s| format!("{s}  \n")),
+        1 => sentence().prop_map(|s| format!("{s}\\\n")),
+    ]
+    .boxed()
+}
+
+fn md_line() -> BoxedStrategy<String> {
+    proptest::collection::vec(md_inline(), 1..4)
+        .prop_map(|v| v.join(" "))
+        .boxed()
+}
+
+fn md_block() -> BoxedStrategy<String> {
+    prop_oneof![
+        6 => md_line(),
+        2 => (1usize..7, md_line()).prop_map(|(n, l)| format!("{} {l}", "#".repeat(n))),
+        1 => (md_line(), sel_str(&["===", "---", "=", "-"])).prop_map(|(l, u)| format!("{l}\n{u}")),
+        2 => proptest::collection::vec((sel_str(&["- ", "* ", "+ ", "1. ", "2) ", "  - ", "    * ", "\t- "]), md_line()), 1..4)
+            .prop_map(|v| v.into_iter().map(|(b, l)| format!("{b}{l}")).collect::<Vec<_>>().join("\n")),
+        2 => proptest::collection::vec((sel_str(&["> ", ">", "> > ", ">  - "]), md_line()), 1..3)
+            .prop_map(|v| v.into_iter().map(|(b, l)| format!("{b}{l}")).collect::<Vec<_>>().join("\n")),
+        1 => (sel_str(&["```", "```rust", "~~~", "````"]), text(), any::<bool>())
+            .prop_map(|(f, t, close)| if close { format!("{f}\n{t}\n{}", &f[..3]) } else { format!("{f}\n{t}") }),
+        1 => text().prop_map(|t| t.lines().map(|l| format!("    {l}")).collect::<Vec<_>>().join("\n")),
+        1 => text().prop_map(|t| t.lines().map(|l| format!("\t{l}")).collect::<Vec<_>>().join("\n")),
+        1 => (md_line(), md_line(), md_line(), md_line())
+            .prop_map(|(a, b, c, d)| format!("| {a} | {b} |\n|---|:-:|\n| {c} | {d} |")),
+        1 => (md_line(), md_line()).prop_map(|(a, b)| format!("| {a} | {b}\n|---|")),
+        1 => sel_str(&["---", "***", "___", "<div>\n", "<div>\nx\n</div>", "[ref]: https://example.com \"Titel\"", "[^1]: A footnot.", "<details><summary>x</summary>"]),
+        1 => (md_line()).prop_map(|l| format!("---\ntitle: {l}\n---")),
+        1 => md_line().prop_map(|l| format!("$$\n{l}\n$$")),
+    ]
+    .boxed()
+}
+
+pub fn markdown_doc() -> BoxedStrategy<String> {
+    (
+        proptest::collection::vec((md_block(), sel_str(&["\n\n", "\n\n", "\n", "\n\n\n", "\r\n\r\n"])), 1..5),
+        sel_str(&["", "\n", " "]),
+    )
+        .prop_map(|(v, tail)| {
+            let mut s = String::new();
+            let n = v.len();
+            for (i, (b, sep)) in v.into_iter().enumerate() {
+                s.push_str(&b);
+                if i + 1 < n {
+                    s.push_str(&sep);
+                }
+            }
+            s + &tail
+        })
+        .boxed()
+}
+
+fn html_node() -> BoxedStrategy<String> {
+    prop_oneof![
+        5 => paragraph(),
+        2 => (sel_str(&["p", "b", "div", "h1", "li", "span", "a", "td", "em", "x-y"]), paragraph())
+            .prop_map(|(t, p)| format!("<{t}>{p}</{t}>")),
+        1 => (sel_str(&["p", "div", "a"]), sel_str(&["class=\"wrold teh\"", "href='https://a.b/?q=1&x'", "title=\"an titel\"", "data-x=😀", "disabled"]), paragraph())
+            .prop_map(|(t, a, p)| format!("<{t} {a}>{p}</{t}>")),
+        1 => paragraph().prop_map(|p| format!("<p>{p}")),
+        1 => paragraph().prop_map(|p| format!("<p {p}")),
+        1 => paragraph().prop_map(|p| format!("<!-- {p} -->")),
+        1 => paragraph().prop_map(|p| format!("<!-- {p}")),
+        1 => paragraph().prop_map(|p| format!("<script>var teh = \"{p}\";</script>")),
+        1 => paragraph().prop_map(|p| format!("<style>.teh {{ color: red; }} /* {p} */</style>")),
+        1 => sel_str(&["<br>", "<br/>", "<img src=\"x.png\" alt=\"an imge\">", "&amp;", "&nbsp;", "&#128512;", "&bogus", "<", ">", "</p>", "<!DOCTYPE html>", "<html><head><title>Teh titel</title></head><body>", "</body></html>", "<![CDATA[ teh ]]>", "<?php echo 1 ?>"]),
+    ]
+    .boxed()
+}
+
+pub fn html_doc() -> BoxedStrategy<String> {
+    proptest::collection::vec((html_node(), sel_str(&["", "\n", " ", "\n\n", "\r\n"])), 1..6)
+        .prop_map(|v| v.into_iter().map(|(a, b)| a + &b).collect())
+        .boxed()
+}
+
+fn typst_piece() -> BoxedStrategy<String> {
+    prop_oneof![
+        5 => paragraph(),
+        1 => (1usize..4, paragraph()).prop_map(|(n, p)| format!("{} {p}", "=".repeat(n))),
+        1 => paragraph().prop_map(|p| format!("*{p}*")),
+        1 => paragraph().prop_map(|p| format!("_{p}_")),
+        1 => paragraph().prop_map(|p| format!("_{p}")),
+        1 => paragraph().prop_map(|p| format!("- {p}")),
+        1 => paragraph().prop_map(|p| format!("+ {p}")),
+        1 => (paragraph(), paragraph()).prop_map(|(a, b)| format!("/ {a}: {b}")),
+        1 => paragraph().prop_map(|p| format!("#let x = \"{p}\"")),
+        1 => paragraph().prop_map(|p| format!("#let x = \"{p}")),
+        1 => paragraph().prop_map(|p| format!("#text(fill: red)[{p}]")),
+        1 => paragraph().prop_map(|p| format!("#text(fill: red)[{p}")),
+        1 => paragraph().prop_map(|p| format!("#figure(caption: [{p}], image(\"an imge.png\"))")),
+        1 => paragraph().prop_map(|p| format!("#link(\"https://a.b\")[{p}]")),
+        1 => paragraph().prop_map(|p| format!("#rgb(\"{p}\")")),
+        1 => paragraph().prop_map(|p| format!("#cite(\"{p}\", \"more {p}\")")),
+        1 => paragraph().prop_map(|p| format!("#image(\"{p}\", alt: \"an imge\")")),
+        1 => paragraph().prop_map(|p| format!("#raw(\"{p}\")")),
+        1 => paragraph().prop_map(|p| format!("$ {p} $")),
+        1 => paragraph().prop_map(|p| format!("$ {p}")),
+        1 => paragraph().prop_map(|p| format!("`{p}`")),
+        1 => paragraph().prop_map(|p| format!("```rust\n{p}\n```")),
+        1 => paragraph().prop_map(|p| format!("// {p}")),
+        1 => paragraph().prop_map(|p| format!("/* {p} */")),
+        1 => paragraph().prop_map(|p| format!("/* {p}")),
+        1 => paragraph().prop_map(|p| format!("#if true [{p}] else [teh {p}]")),
+        1 => paragraph().prop_map(|p| format!("#for x in (1, 2) [{p}]")),
+        1 => paragraph().prop_map(|p| format!("#let f(x) = [{p} #x]")),
+        1 => paragraph().prop_map(|p| format!("#show heading: it => [{p}]")),
+        1 => paragraph().prop_map(|p| format!("#set text(lang: \"{p}\")")),
+        1 => paragraph().prop_map(|p| format!("#(a: \"{p}\", b: [{p}]).a")),
+        1 => sel_str(&["#x.y", "#x.", "#x.y.z()", "#(", "#[", "#{", "#", "#x(", "#x[", "@ref", "<label>", "#import \"a.typ\": b", "#include \"teh.typ\"", "\\", "\\u{1F600}", "~", "---", "#1.5em", "#true", "#none", "#x.at(0)", "#(1 + 2)", "#{ let y = 1; y }", "#context [ teh ]", "#a.b.c[teh wrold]"]),
+    ]
+    .boxed()
+}
+
+pub fn typst_doc() -> BoxedStrategy<String> {
+    proptest::collection::vec((typst_piece(), sel_str(&["\n", "\n\n", " ", "\n\n\n", "\r\n"])), 1..6)
+        .prop_map(|v| v.into_iter().map(|(a, b)| a + &b).collect())
+        .boxed()
+}
+
+pub fn lhs_doc() -> BoxedStrategy<String> {
+    let seg = prop_oneof![
+        4 => markdown_doc(),
+        2 => proptest::collection::vec(sel_str(&["> main = putStrLn \"helo wrold\"", "> import Data.List", ">", "> ", ">x", "> -- a commnet in code", ">   where teh = 1"]), 1..4)
+            .prop_map(|v| v.join("\n")),
+        1 => (text(), any::<bool>()).prop_map(|(t, close)| if close { format!("\\begin{{code}}\n{t}\n\\end{{code}}") } else { format!("\\begin{{code}}\n{t}") }),
+        1 => sel_str(&["\\end{code}", "\\begin{code}", "\\begin{code}\\end{code}", "< not code", "%"]),
+    ];
+    proptest::collection::vec((seg, sel_str(&["\n", "\n\n", "\r\n"])), 1..5)
+        .prop_map(|v| v.into_iter().map(|(a, b)| a + &b).collect())
+        .boxed()
+}
+
+pub fn git_commit_doc() -> BoxedStrategy<String> {
+    (
+        sentence(),
+        proptest::option::of(markdown_doc()),
+        proptest::collection::vec(sel_str(&["# Please enter the commit mesage for your changes.", "# On branch main", "#", "#\tmodified:   teh.rs", "# ------------------------ >8 ------------------------", "diff --git a/x b/x"]), 0..4),
+    )
+        .prop_map(|(subj, body, trailer)| {
+            let mut s = subj;
+            if let Some(b) = body {
+                s.push_str("\n\n");
+                s.push_str(&b);
+            }
+            if !trailer.is_empty() {
+                s.push('\n');
+                s.push_str(&trailer.join("\n"));
+            }
+            s
+        })
+        .boxed()
+}
+
+/// A document for language id `lang` (any string is a legal input for any front-end; this
+/// generator makes the interesting constructs frequent).
+pub fn doc_for(lang: &str) -> BoxedStrategy<String> {
+    match lang {
+        "plaintext" | "text" | "mail" => text(),
+        "markdown" => prop_oneof![3 => markdown_doc(), 1 => text()].boxed(),
+        "html" => prop_oneof![3 => html_doc(), 1 => text()].boxed(),
+        "typst" => prop_oneof![3 => typst_doc(), 1 => text()].boxed(),
+        "literate haskell" | "lhaskell" => prop_oneof![3 => lhs_doc(), 1 => text()].boxed(),
+        "git-commit" | "gitcommit" => prop_oneof![3 => git_commit_doc(), 1 => text()].boxed(),
+        other => prop_oneof![6 => super::program::source_file(other), 1 => text(), 1 => markdown_doc()].boxed(),
+    }
+}
